@@ -18,6 +18,12 @@ Definition dispatch (e : sexp) : sexp :=
       else if tag_is t "unicode" then run_unicode_case args
       else if tag_is t "builtin" then run_builtin_case args
       else if tag_is t "bridge" then run_bridge_case args
+      else if tag_is t "concurrent" then
+        (* the model of a runner shares nothing: each case alone (Props/C18.v) *)
+        tagged "all" (map (fun c => match untag c with
+                                    | Some (_, a) => run_runner_case a
+                                    | None => bad "concurrent: case"
+                                    end) args)
       else if tag_is t "load" then tagged "nomodel" []      (* accept/reject of arbitrary bytes is the ANTLR parser's *)
       else if tag_is t "fmt" then run_fmt_case args
       else if tag_is t "parse" then run_parse_case args
